@@ -236,8 +236,9 @@ class Run:
     def make_sched(self, entry, n):
         from ribs.emitters import GaussianEmitter
         from ribs.schedulers import BanditScheduler, Scheduler
-        em = [GaussianEmitter(self.a, sigma=0.5, x0=np.zeros(self.case["sol_dim"]), batch_size=n, seed=1)]
-        return Scheduler(self.a, em) if entry == "sched_tell" else BanditScheduler(self.a, em, num_active=1)
+        import faultlib
+        em = faultlib.sched_emitters(self.a, n, self.case["sol_dim"])
+        return Scheduler(self.a, em) if entry == "sched_tell" else BanditScheduler(self.a, em, num_active=len(em))
 
     def do_bad(self, op, where):
         import faultlib
